@@ -39,16 +39,21 @@ def pick(cases, limit, seed):
 
 
 def _run_form(job):
-    shapes, seed, feat, fmt, kwargs = job["shapes"], job["seed"], job["feat"], job["fmt"], job.get("kwargs") or {}
-    form = formgen.decorate(shapes, seed=seed, feat=frozenset(feat))
-    wb = form.wb()
+    shapes, seed, feat, fmt, kwargs = job.get("shapes"), job.get("seed", 0), job.get("feat", []), job.get("fmt", "dict"), job.get("kwargs") or {}
+    if "wb" in job:
+        wb = job["wb"]
+        info = job.get("info")
+    else:
+        form = formgen.decorate(shapes, seed=seed, feat=frozenset(feat))
+        wb = form.wb()
+        info = form.info
     inp, kw = render.render(wb, fmt)
     kw.update(kwargs)
     res = conv.convert_case({"input": inp, "kwargs": kw, "events": True})
     cfg = rowtrace.wb_cfg(wb, form_name=kwargs.get("form_name"))
-    trace, frag = rowtrace.build(res, cfg)
+    trace, frag = rowtrace.build(res, cfg, with_refs=bool(job.get("refs")))
     return {"shapes": shapes, "seed": seed, "feat": sorted(feat), "fmt": fmt, "wb": wb, "res": {k: v for k, v in res.items() if k != "events"},
-            "trace": trace, "frag": frag, "info": form.info}
+            "trace": trace, "frag": frag, "info": info, "tag": job.get("tag")}
 
 
 def run_forms(jobs):
